@@ -300,6 +300,9 @@ class Result:
             self.samples.append(jsonable(s))
 
     def violation(self, sig: dict, witness: dict):
+        env = os.environ.get("VERIF_ENV_VARIANT_USED", "default")
+        if env != "default" and isinstance(witness, dict):
+            witness = dict(witness, interpreter_environment=env)
         key = json.dumps(sig, sort_keys=True)
         c = self.viol_counts.get(key, 0)
         self.viol_counts[key] = c + 1
@@ -358,14 +361,34 @@ def sig_matches(match: dict, sig: dict) -> bool:
 # ---------------------------------------------------------------------------
 # driver
 # ---------------------------------------------------------------------------
-def _run_worker(pid, tier, shard, timeout):
+# The interpreter environment is a dimension of the workload too: shards rotate through it.
+ENV_VARIANTS = ["default", "ascii-locale", "hash-seed", "optimised"]
+
+
+def _run_worker(pid, tier, shard, timeout, index=0):
     fd, out = tempfile.mkstemp(prefix="rv-%s-" % pid, suffix=".json")
     os.close(fd)
     env = dict(os.environ, PYTHONHASHSEED="0", VERIF_SEED=str(SEED),
                VERIF_REPO=REPO, PYTHONDONTWRITEBYTECODE="1")
     env[GUARD] = "1"
-    cmd = [sys.executable, "-X", "faulthandler", "-m", "rv", "--worker", pid,
-           "--tier", tier, "--shard", json.dumps(shard), "--out", out]
+    variant = ENV_VARIANTS[index % len(ENV_VARIANTS)]
+    if os.environ.get("VERIF_ENV_VARIANT"):
+        variant = os.environ["VERIF_ENV_VARIANT"]
+    flags = []
+    if variant == "ascii-locale":
+        # the C locale of a cron job or a bare container: text files and the standard
+        # streams default to ASCII
+        env.update(LC_ALL="C", LANG="C", PYTHONCOERCECLOCALE="0", PYTHONUTF8="0")
+        env.pop("PYTHONIOENCODING", None)
+    elif variant == "hash-seed":
+        # another iteration order of sets (and of dicts keyed by hash-ordered data)
+        env["PYTHONHASHSEED"] = str((SEED * 7919 + index * 104729 + 1) % 4294967295)
+    elif variant == "optimised":
+        flags = ["-O"]  # assert statements and `if __debug__` blocks are compiled away
+    env["VERIF_ENV_VARIANT_USED"] = variant
+    cmd = [sys.executable, "-X", "faulthandler"] + flags + [
+        "-m", "rv", "--worker", pid,
+        "--tier", tier, "--shard", json.dumps(shard), "--out", out]
     t0 = time.time()
     try:
         p = subprocess.run(cmd, cwd=VERIF_DIR, env=env, timeout=timeout,
@@ -398,6 +421,7 @@ def worker_main(pid, tier, shard, out):
     pin_repo()
     mod = importlib.import_module("rv.checks.%s" % pid.lower())
     res = Result()
+    res.observe("interpreter-environment", os.environ.get("VERIF_ENV_VARIANT_USED", "default"))
     try:
         mod.run_shard(tier, shard, res)
     except BaseException as e:  # harness failure, never a verdict
@@ -417,7 +441,8 @@ def drive(pid, tier, replay=None):
     shards = mod.plan(tier, SEED)
     timeout = getattr(mod, "SHARD_TIMEOUT", {}).get(tier, 900)
     with ThreadPoolExecutor(NCPU) as ex:
-        outs = list(ex.map(lambda s: _run_worker(pid, tier, s, timeout), shards))
+        outs = list(ex.map(lambda a: _run_worker(pid, tier, a[1], timeout, a[0]),
+                           list(enumerate(shards))))
 
     if os.environ.get("VERIF_DEBUG"):
         for o in sorted(outs, key=lambda o: -o["wall"])[:8]:
@@ -564,6 +589,19 @@ def drive(pid, tier, replay=None):
 def _replay(pid, mod, path):
     with open(path) as f:
         rec = json.load(f)
+    want = (rec.get("witness") or {}).get("interpreter_environment", "default") \
+        if isinstance(rec.get("witness"), dict) else "default"
+    if want != "default" and os.environ.get("VERIF_ENV_VARIANT_USED") != want:
+        # the witness was observed under another interpreter environment: replay there
+        env = dict(os.environ, VERIF_ENV_VARIANT_USED=want)
+        flags = []
+        if want == "ascii-locale":
+            env.update(LC_ALL="C", LANG="C", PYTHONCOERCECLOCALE="0", PYTHONUTF8="0")
+        elif want == "optimised":
+            flags = ["-O"]
+        p = subprocess.run([sys.executable] + flags + ["-m", "rv", pid, "--replay", path],
+                           cwd=VERIF_DIR, env=env)
+        return p.returncode
     res = Result()
     fn = getattr(mod, "replay", None)
     if fn is None:
